@@ -168,8 +168,8 @@ impl Drop for Cfg {
 /// What one event returned, fully read out.
 #[derive(Clone, Debug, PartialEq)]
 pub enum Out {
-    Full { aux: String, list: Vec<String>, sel: usize, pre: Vec<Result<String, String>> },
-    Single { text: String, pre: Result<String, String> },
+    Full { aux: String, list: Vec<String>, sel: usize, pre: Vec<Result<String, String>>, ansi: bool },
+    Single { text: String, pre: Result<String, String>, ansi: bool },
     Unit,
     Panic(String),
 }
@@ -194,6 +194,9 @@ pub fn install_quiet_panic_hook() {
         } else {
             "panic".to_string()
         };
+        if loc.starts_with("src/") && !loc.starts_with("src/fixed") && !loc.starts_with("src/phonetic") {
+            eprintln!("harness panic: {} @ {}", msg, loc);
+        }
         LAST_PANIC.with(|p| *p.borrow_mut() = format!("{} @ {}", msg.lines().next().unwrap_or(""), loc));
     }));
 }
@@ -206,11 +209,13 @@ pub fn read_out(s: &Suggestion) -> Out {
     if s.is_lonely() {
         let text = s.get_lonely_suggestion().to_owned();
         let pre = guarded(|| s.get_pre_edit_text(0));
-        Out::Single { text, pre }
+        let ansi = matches!(s, Suggestion::Single { ansi: true, .. });
+        Out::Single { text, pre, ansi }
     } else {
         let list: Vec<String> = s.get_suggestions().to_vec();
         let pre = (0..list.len()).map(|i| guarded(|| s.get_pre_edit_text(i))).collect();
-        Out::Full { aux: s.get_auxiliary_text().to_owned(), list, sel: s.previously_selected_index(), pre }
+        let ansi = matches!(s, Suggestion::Full { ansi: true, .. });
+        Out::Full { aux: s.get_auxiliary_text().to_owned(), list, sel: s.previously_selected_index(), pre, ansi }
     }
 }
 
